@@ -106,7 +106,23 @@ def build_ties(pid):
         with BuildLock():
             rc, log = run_cmd(["lake", "build", mod], cwd=LEAN)
         thms = re.findall(r"^theorem\s+([A-Za-z0-9_.']+)", strip_comments(open(path).read()), re.M)
-        out[mod] = {"status": "holds" if rc == 0 else "unavailable", "theorems": thms,
+        axioms = []
+        if rc == 0:
+            # the same axiom audit as for the property theorems
+            d = os.path.join(LEAN, ".lake", "audit")
+            os.makedirs(d, exist_ok=True)
+            ap = os.path.join(d, f"tie_{pid}_{os.getpid()}.lean")
+            with open(ap, "w") as f:
+                f.write(f"import {mod}\n" + "".join(f"#print axioms Serif.Tie.{n}\n" for n in thms))
+            _, aout = run_cmd(["lake", "env", "lean", ap], cwd=LEAN)
+            os.unlink(ap)
+            for m in re.finditer(r"depends on axioms: \[([^\]]*)\]", aout.replace("\n", " ")):
+                axioms += [a.strip() for a in m.group(1).split(",") if a.strip()]
+            axioms = sorted(set(axioms))
+            if any(a not in ("propext", "Classical.choice", "Quot.sound") for a in axioms) or "sorry" in aout:
+                rc = 1
+                log = "axiom audit of the tie theorems failed: " + ", ".join(axioms)
+        out[mod] = {"status": "holds" if rc == 0 else "unavailable", "theorems": thms, "axioms": axioms,
                     "log": "" if rc == 0 else "\n".join(l for l in log.splitlines() if not l.startswith("trace:"))[-600:]}
     return out
 
